@@ -162,8 +162,10 @@ def cases(draw):
         st.lists(st.sampled_from(['F', 'F', 'E', 'T', 'R']), max_size=4),
         min_size=1, max_size=4))
     sched = draw(st.lists(st.tuples(
+        # (reload with the definition unchanged: the call discipline must
+        # carry over)
         st.sampled_from(['loop', 'loop', 'loop', 'ret', 'adv', 'del',
-                         'tk', 'tk']),
+                         'tk', 'tk', 'loop', 'ret', 'tk', 'reload']),
         st.integers(0, 11)).map(list), max_size=60))
     return {'spec': spec, 'labels': labels, 'deps': deps, 'scripts': scripts,
             'schedule': sched, 'outcomes': {},
